@@ -100,7 +100,8 @@ CLAIMED["C07"] = {
             "written. Origin -> PDU (all origins, both actions, all "
             "versions) and PDU -> origin (every prefix PDU, valid or not) "
             "are decided separately and compose to 'survives the wire'. "
-            "End of Data version split and read_payload dispatch, Error PDU "
+            "End of Data version split and read_payload dispatch incl. "
+            "refusal of unknown versions with a complete body, Error PDU "
             "layout, and for broken streams: every truncation class of the "
             "fixed-layout readers and Error::skip_payload with arbitrary "
             "header and body (errors, bounded consumption, no spinning on a "
@@ -144,7 +145,10 @@ CLAIMED["C02"] = {
             "(SignedAttrs::encode_verify: SET OF tag, DER length, attribute "
             "bytes unchanged) are decided for every length-encoding class: "
             "sizes 0, 1, 107, 127 (short form), 128, 129, 200, 255 (0x81), "
-            "256, 257, 1000 (0x82).",
+            "256, 257, 1000 (0x82); and ROA coverage: a ROA prefix (any "
+            "address, any length) is covered by canonical EE resources of 2 "
+            "full-width blocks exactly when its range lies inside one "
+            "block.",
     "ref": "§3 C02",
     "note": "Hook: SignedAttrs::verif_from_bytes. NOT decided: the "
             "digest / signature / EE certificate / resource coverage "
@@ -154,24 +158,32 @@ CLAIMED["C02"] = {
             "signed-attribute parser.",
 }
 CLAIMED["C03"] = {
-    "text": "PARTIAL (layer L1 of DESIGN §3 C03 plus chain comparison): at "
-            "full width (u32 / u128, no loops): AS block canonical form, "
-            "bounds, membership, counts, next/previous at both ends; "
-            "Block::sum == hull iff overlapping or adjacent; IP prefix "
-            "range arithmetic (to_min/to_max/range); range <-> prefix "
-            "canonicalisation (a range is a prefix iff aligned power of "
-            "two); IPv4 range -> prefix decomposition tiles the range "
-            "exactly (ranges of <= 8 addresses anywhere in the space, 64 in "
-            "thorough); Chain::is_encompassed and == on arbitrary canonical "
-            "chains of up to 2 blocks (instantiated at an 8-bit block type); "
-            "AS range text must be ordered.",
+    "text": "PARTIAL. At full width (u32 / u128, loop-free): AS block "
+            "canonical form, bounds, membership, counts, next/previous at "
+            "both ends; Block::sum == hull iff overlapping or adjacent; IP "
+            "prefix range arithmetic; range <-> prefix canonicalisation; IPv4 "
+            "range -> prefix decomposition tiles the range exactly (<= 8 "
+            "addresses anywhere in the space, 64 in thorough); "
+            "AsBlocks::verify_issued under the no-overclaim policy, "
+            "verify_covered, contains on canonical sets of up to 2 blocks "
+            "(subset <=> granted, nothing outside the issuer). On the generic "
+            "chain code instantiated at an 8-bit block type: collecting 2, 3 "
+            "(thorough: 4) blocks that arrive sorted yields the canonical "
+            "chain of their union; one step of the unsorted collection keeps "
+            "the working blocks pairwise apart and denotes the union (the "
+            "bridging-block defect was found here); is_encompassed and == on "
+            "canonical chains of up to 2 blocks; AS range text is ordered.",
     "ref": "§3 C03",
-    "note": "Hooks: resources::verif re-export of Block/Chain/OwnedChain. "
-            "NOT decided (queries run out of 14 GB / 50 min, harnesses kept "
-            "as '@tier exp'): OwnedChain::from_iter / from_iter_unsorted "
-            "(so the 'later block bridges two earlier ones' case), "
-            "Chain::trim / difference, AsBlocks::verify_issued, DER range "
-            "decoding (AS: out of memory; IP: Kani ICE), text/serde forms.",
+    "note": "Hooks: resources::verif re-export of Block/Chain/OwnedChain, "
+            "verif_merge_or_add_block, AsBlocks::verif_from_vec_unchecked. "
+            "Stub: from_iter_unsorted -> panic in the sorted-collect "
+            "harnesses (the branch is unreachable for sorted input; taking it "
+            "fails the harness). NOT decided: the std sort and the "
+            "adjacent-merge pass at the end of the unsorted collection, "
+            "Chain::trim / difference and hence the trimming policy, union, "
+            "intersection (queries run out of 14 GB), DER range decoding "
+            "(AS: out of memory; IP: Kani ICE), text/serde forms, "
+            "ResourceSet, RequestResourceLimit.",
 }
 CLAIMED["C09"] = {
     "text": "PARTIAL: delta-chain check against a sort-and-scan reference "
